@@ -19,11 +19,13 @@ from sqlite_dissect.version_history import VersionHistory
 from ..gen import walreader
 from ..impl.canon import classify, err, hx
 from ..leanio import driver
+from ..translate import pyfun
 from . import carvecommon as K
 from . import dbcommon as C
 
 ID = "C08"
-LEAN_MODULES = ["SqliteDissect.Properties.C08"]
+LEAN_MODULES = ["SqliteDissect.Properties.C08", "SqliteDissect.Properties.GenFun"]
+TRANSLATORS = [pyfun]
 RULE = ("(a) CarvedRecord.__init__ called directly on generated arguments (every location x start-offset branch, full and "
         "partial matches, bytes and bytearray data) vs carve.record; the real SignatureCarver.carve_unallocated_space / "
         "carve_freeblocks through stub version/freeblock objects on generated regions (zero-filled, residue-filled, records "
@@ -45,7 +47,7 @@ ASSUMPTIONS = [
     "serial types are below 2^56 and content sizes below 2^53 (the float returned by get_content_size for blobs is exact)",
     "the Python type of the data object (bytes, or bytearray() for an empty region) no longer decides anything after fix 4d9b308 / 0b2b453 and is not part of the model's input; the generators still pass both",
 ]
-TRUSTED_EXTRA = ["Python re for the emitted regex fragment", "harness/props/carvecommon.py page_layout / get_varint / decode_body: independent reader written from the file-format document"]
+TRUSTED_EXTRA = [pyfun.TRUSTED, "Python re for the emitted regex fragment", "harness/props/carvecommon.py page_layout / get_varint / decode_body: independent reader written from the file-format document"]
 
 BASIC = list(range(10))
 
